@@ -195,6 +195,7 @@ Definition opt_is_uses_eq : bool := true.
 Definition opt_has_getitem : bool := true.
 Definition opt_has_delitem : bool := true.
 Definition opt_try_keeps_finally : bool := true.
+Definition opt_ctx_fresh : bool := true.
 
 (* ---- C08 (harness/tr/tr_arity.py): copies of what the translator emits for the pinned tree ---- *)
 (* generator.__multi_arity_dispatch_fn: 0 = `nargs >= max_fixed_arity` selects the rest arity *)
